@@ -304,9 +304,17 @@ class Kernel:
     def _sort_key(self, stmt, arg, before):
         """key expression and the list it iterates over (following one local alias)."""
         if isinstance(arg, ast.Name):
+            name0 = arg.id
             for s in before:
-                if isinstance(s, ast.Assign) and isinstance(s.targets[0], ast.Name) and s.targets[0].id == arg.id:
+                if isinstance(s, ast.Assign) and isinstance(s.targets[0], ast.Name) and s.targets[0].id == name0:
                     arg = s.value
+            if isinstance(arg, ast.List) and not arg.elts:
+                # the comprehension in its loop form (E0):  keys = [];  for p in LIST: keys.append(-hs(p))
+                for s in before:
+                    if isinstance(s, ast.For) and len(s.body) == 1 and isinstance(s.body[0], ast.Expr) and isinstance(s.body[0].value, ast.Call) \
+                            and isinstance(s.body[0].value.func, ast.Attribute) and s.body[0].value.func.attr == "append" \
+                            and unparse(s.body[0].value.func.value) == name0 and s.body[0].value.args:
+                        return s.body[0].value.args[0], unparse(s.iter)
         if isinstance(arg, ast.ListComp) and len(arg.generators) == 1:
             g = arg.generators[0]
             return arg.elt, unparse(g.iter)
